@@ -135,6 +135,16 @@ LADDERS = [
     ("HDDDM", "drift", {"detect_batch": 3, "statistic": "stdev", "subsets": 3}, "significance", [0.5, 1, 2], 4, 5),
     ("CDBD", "drift", {"detect_batch": 1, "statistic": "stdev", "subsets": 3}, "significance", [0.5, 1, 2], 4, 5),
     ("CDBD", "drift", {"detect_batch": 3, "statistic": "tstat", "subsets": 3}, "significance", [0.5, 0.2, 0.05], 4, 5),
+    # the same ladders in other regions: level 3e7 / scale 1e-3 inputs, other containers, significance levels above 1/2,
+    # alpha * bootstrap_samples below 1/2, a warning level stricter than every detect level
+    ("CUSUM", "drift", {"target": None, "sd_hat": None, "burn_in": 2, "delta": 0.5, "_offset": 3.0e7}, "threshold", [0.5, 1, 3], 7, 9),
+    ("PageHinkley", "drift", {"delta": 0.0, "burn_in": 2, "_scale": 0.001, "_container": "DataFrame"}, "threshold", [0.5, 1, 5], 7, 8),
+    ("STEPD", "drift", {"window_size": 2, "alpha_warning": 0.95}, "alpha_drift", [0.9, 0.7, 0.55, 0.2], 11, 14),
+    ("LinearFourRates", "drift", {"time_decay_factor": 0.6, "warning_level": 0.01, "burn_in": 1, "num_mc": 20}, "detect_level", [0.3, 0.1, 0.02], 5, 6),
+    ("KdqTreeStreaming", "drift", {"window_size": 2, "persistence": 0.0, "bootstrap_samples": 10, "count_ubound": 1, "_container": "DataFrame2"}, "alpha", [0.6, 0.2, 0.04, 0.0], 8, 9),
+    ("KdqTreeBatch", "drift", {"bootstrap_samples": 10, "count_ubound": 2, "_container": "DataFrame"}, "alpha", [0.7, 0.2, 0.04], 3, 4),
+    ("NNDVI", "drift", {"k_nn": 2, "sampling_times": 8, "_container": "DataFrame"}, "alpha", [0.6, 0.3, 0.01], 3, 4),
+    ("HDDDM", "drift", {"detect_batch": 1, "statistic": "tstat", "subsets": 3, "_container": "DataFrame"}, "significance", [0.5, 0.2, 0.05], 4, 5),
     # warning clause: ladder tightest..loosest warning threshold
     # (ladders deliberately cross the drift value: a warning threshold stricter than the drift threshold is legal)
     ("DDM", "warning", {"n_threshold": 2, "drift_scale": 2}, "warning_scale", [3, 2.5, 1.5, 1], 13, 16),
@@ -170,7 +180,8 @@ def tasks(tier, seed):
 
 def REQUIRED(tier):
     req = ["histories_distinguishing_settings", "warning_sets_differ", "warning_clause_drifts"]
-    req += ["distinguished:" + n for n in sorted({l[0] for l in LADDERS if l[1] == "drift"})]
+    # demanded only where the count cannot depend on VERIF_SEED (the stochastic families are reported, not demanded)
+    req += ["distinguished:" + n for n in sorted({l[0] for l in LADDERS if l[1] == "drift"}) if not DRIVERS[n].stochastic]
     return req
 
 
